@@ -433,11 +433,13 @@ def rangeOps (p : Pool R) : List (Option Nat) → List (Option Nat) → Except E
   | [], _ => .ok []
   | _, _ => .error .attr
 
-/-- block rows of the diagonal operator: `Ms[i]` at `(i, i)`, zero blocks elsewhere -/
-def diagBlocks (rd cd : List Nat) (Ms : List (Mat R)) : List (List (Bool × Mat R)) :=
-  (List.range rd.length).map fun i =>
-    (List.range cd.length).map fun j =>
-      if i = j then (false, Ms.getD i []) else (false, zeroMat (rd.getD i 0) (cd.getD j 0))
+/-- block rows of the diagonal operator (`Ms[i]` at `(i, i)`, zero operators elsewhere), built recursively:
+first row = `M` followed by zero blocks, the remaining rows = a zero block followed by the rows of the rest -/
+def diagBlocks : List Nat → List Nat → List (Mat R) → List (List (Bool × Mat R))
+  | r :: rd, d :: cd, M :: Ms =>
+    ((false, M) :: cd.map fun d' => (false, zeroMat r d')) ::
+      List.zipWith (fun r' row => (false, zeroMat r' d) :: row) rd (diagBlocks rd cd Ms)
+  | _, _, _ => []
 
 def strongK (p : Pool R) (k : BlkV R) : Except Err (DOp R) := do
   let Ms ← rangeOps p k.rans k.duals
